@@ -209,6 +209,7 @@ class UpdaterWorld(World):
             res = old + up - dn
             # float32 cannot follow runaway magnitudes (unscaled power bounds outside the range): not judged
             res = np.where((np.abs(old) < 1e12) & (np.abs(up) < 1e12) & (np.abs(dn) < 1e12), res, np.nan)
+            self._scale = np.abs(old) + np.abs(up) + np.abs(dn)      # magnitude of the float32 operands (cancellation)
         return res
 
     def execute(self, desc, ctx):
@@ -295,15 +296,19 @@ class UpdaterWorld(World):
                     continue
                 any_pending = True
                 fin = np.isfinite(want) & (np.abs(want) < 1e30) & np.isfinite(olds[p])
-                tol = 2e-5 + 2e-4 * np.abs(np.where(fin, want, 0)) + 1e-5 * sum(np.abs(x).sum(0) for x in (pend[p]["pos"] + pend[p]["neg"]))
+                scale = np.where(np.isfinite(self._scale), self._scale, 0.0)
+                tol = 2e-5 + 2e-4 * np.abs(np.where(fin, want, 0)) + 1e-5 * sum(np.abs(x).sum(0) for x in (pend[p]["pos"] + pend[p]["neg"])) + 3e-6 * scale
                 if got.shape != want.shape or np.any(fin & ~(np.abs(got - np.where(fin, want, 0)) <= tol)):
                     ctx.fail("applied_value", dict(facts, param=p, npos=len(pend[p]["pos"]), nneg=len(pend[p]["neg"]), how=how),
                              f"{how}: {p} = {got.tolist()} expected old + ub(reduce(pos)) - lb(reduce(neg)) = {want.tolist()}")
                 gr = np.nan_to_num(_np(getattr(rep, p)), nan=0.0, posinf=0.0, neginf=0.0)
                 got = np.nan_to_num(got, nan=0.0, posinf=0.0, neginf=0.0)
-                tol2 = 5e-5 + 5e-4 * np.abs(np.where(fin, want, 0))
+                tol2 = 5e-5 + 5e-4 * np.abs(np.where(fin, want, 0)) + 6e-6 * scale
                 if np.any(fin & ~(np.abs(gr - got) <= tol2)):
                     ctx.fail("order_dependence", dict(facts, param=p), f"{how}: permuted contribution order gives {gr.tolist()} vs {got.tolist()}")
+                # rounding differences must not compound through unstable (e.g. unscaled power) dynamics: the replica
+                # restarts every update from the same parameter value
+                setattr(rep, p, getattr(par, p).detach().clone())
                 if len(pend[p]["pos"]) + len(pend[p]["neg"]) > 1:
                     ctx.probe("multi_part_update")
             if cfg["reduction"] == "spy_sum":
